@@ -1,11 +1,22 @@
 """C13 - fast_nonMarkov_SIS honours the supplied delays.  Decided only by a bounded native stand-in (labelled bounded):
 the real simulator against a plain reference semantics on deterministic, tie-free delay rules."""
 from ..common import Report
+from ..pyvc import verify as V
+from ..contracts import nonmarkov_sis
 from . import util
+
+
+def reg():
+    r = V.Registry()
+    for c in nonmarkov_sis.contracts():
+        r.add(c)
+    return r
 
 
 def run(tier, seed):
     rep = Report('C13', tier, seed)
+    # the adapter from the two user rules to the joint rule is within reach of the VC generator (the event handler is not)
+    rep.add_unit_results(util.run_jobs(util.jobs_for(reg, tier=tier)))
     from ..replay import sim_native
     rep.add(util.native_ob('native:nonMarkov-SIS-reference-semantics', 'EoN/simulation.py:fast_nonMarkov_SIS / _process_trans_SIS_nonMarkov_', sim_native.c13_native,
                            '400 random graphs with 2..6 nodes (a fifth without a node 0), 1-2 seeds, tmin in {0, 1.5, -3.25}, 4 horizons, random silent and short-lived nodes; duration and delay lists (0-3 delays per neighbour, a third of the trials with '
@@ -14,7 +25,7 @@ def run(tier, seed):
                            'neighbour is susceptible at that instant'))
     rep.bounded_is_supplementary = False
     rep.level = 'other'
-    rep.explanation = ('Bounded only: the handler _process_trans_SIS_nonMarkov_ (future_transmissions bookkeeping through closures over per-source lists) is not within reach of the '
+    rep.explanation = ('Unbounded for the adapter _find_trans_and_rec_delays_SIS_ only: the duration rule is asked once, first, about the node; the delay rule is asked for every neighbour with (node, neighbour, that duration, *args); the dict returned maps exactly the neighbours to the user\'s answers. Otherwise bounded: the handler _process_trans_SIS_nonMarkov_ (future_transmissions bookkeeping through closures over per-source lists) is not within reach of the '
                        'VC generator yet; a stated-bound comparison of the real simulator with an independent reference stands in.  The clause "with exponential rules it '
                        'reproduces the law of fast_SIS" is a statement about distributions and is not decided (the reference semantics + C02 imply it; cited).')
     rep.assumptions += ['delays >= 0, durations > 0; all event times distinct (the property quantifies over distinct event times)',
